@@ -229,6 +229,10 @@ func (mbs *metadataPartStorage) createRangeReader(ctx context.Context, tx databa
 	if endByte != nil {
 		globalEnd = *endByte
 	}
+	if startByte == nil && endByte == nil && object.Size == 0 {
+		// The whole of an empty object is an empty stream, not an unsatisfiable range.
+		return io.NopCloser(bytes.NewReader(nil)), nil
+	}
 	if globalStart >= globalEnd {
 		return nil, storage.ErrInvalidRange
 	}
